@@ -1646,8 +1646,9 @@ class C06(Check):
             for i, c in enumerate(scope(TH_C, 3, 2, timers=[[8, False, True, None]], label="thr-scope3x2-wide")):   # 13^3, two schedules each
                 yield threaded(c, sched_of(i))
                 yield threaded(c, {"t": "random", "seed": rng.randrange(1 << 30)})
-            for c in scope([a for a in ALPHA if a not in DROP], 2, 2, label="scope2x2-wide"):      # 421^2
-                yield c
+            ph = rng.randrange(3)                                  # two thirds of the 421^2 scope per run (the third left out moves with the seed)
+            for i, c in enumerate(scope([a for a in ALPHA if a not in DROP], 2, 2, label="scope2x2-wide")):
+                if i % 3 != ph: yield c
             for c in wake_ways(full=True): yield c
             for c in both_sets_cases(full=True): yield c
             for c in burst_cases(full=True): yield c
@@ -1659,7 +1660,7 @@ class C06(Check):
                 yield c
             for c in scope([SEL_R0, ["again", -1, True]], 3, 3, label="scope3x3"):     # 15^3
                 yield c
-            for _ in range(2):                                                   # all 3 tasks x <=3 yields over random 3-symbol alphabets
+            for _ in range(1):                                                   # all 3 tasks x <=3 yields over a random 3-symbol alphabet
                 alpha = rng.sample(ALPHA, 3)
                 for c in scope(alpha, 3, 3, label="scope3x3-rand"):              # 40^3 each
                     yield c
